@@ -271,15 +271,21 @@ class FileInspector(abc.ABC):
         # data
         self._capture(chunk)
 
-        # Let the format do some post-read processing of the stream
-        self.post_process()
-
+        # Let the format do some post-read processing of the stream.
         # Check to see if the post-read processing added new regions
-        # which may require the current chunk.
-        new_regions = set(self._capture_regions.values()) - pre_regions
-        if new_regions:
+        # which may require the current chunk. Data captured by a new
+        # region may in turn allow the format to locate further regions
+        # within this same chunk, so repeat until no new region appears.
+        known_regions = pre_regions
+        while True:
+            self.post_process()
+            current_regions = set(self._capture_regions.values())
+            new_regions = current_regions - known_regions
+            if not new_regions:
+                break
             self._capture(chunk, only=[self.region_name(r)
                                        for r in new_regions])
+            known_regions = current_regions
 
         post_complete = {region for region in self._capture_regions.values()
                          if region.complete}
